@@ -108,6 +108,7 @@ def intact(comments, files):
             bad.append((tgt, "no docstring found for this element"))
             continue
         for d in ds[tgt]:
+            d = d.replace('\\"\\"\\"', '"""')     # an escaped terminator inside a raw docstring reads as the terminator
             if not _sub(want, d.split()):
                 bad.append((tgt, f"comment words {want[:6]!r}... not found in the docstring {d[:120]!r}"))
                 break
